@@ -38,6 +38,12 @@ def r1_main(idx, r):
                   msg=f"every normal exit must have run BOL once and EOL once (also after a halt): {e.state}")
     it = norm(propagate(loop.iter, env))
     r.require(it == "range(self.r.p.cycle, self.cs['nCycles'])", "cycle-range", f, node=loop.iter, msg=f"cycles must run from the start cycle to nCycles: `{it}`")
+    # the start cycle is what the reactor says AFTER beginning-of-life: a restart sets r.p.cycle inside a BOL hook
+    reads = [st_ for st_ in walk_local(f.node) if isinstance(st_, ast.Assign) and "self.r.p.cycle" in norm(st_.value)]
+    for st_ in reads:
+        sb = fl.state_before(st_) or {}
+        r.require(sb.get("interactAllBOL", (0, 0))[0] >= 1, f"start-cycle-read-after-BOL:{norm(st_.targets[0])}", f, node=st_,
+                  msg=f"`{norm(st_)}` reads the start cycle before the beginning-of-life hooks have run; in a restart those hooks set r.p.cycle, so the loop would start at cycle 0")
     calls = [c for c in iter_calls(loop) if _is_call(c, "self._cycleLoop")]
     okc = len(calls) == 1 and [norm(a) for a in calls[0].args] == [norm(loop.target), "startingCycle"] and "startingCycle" in env
     r.require(okc, "cycleLoop-args", f, node=calls[0] if calls else loop, msg="each cycle must be run as _cycleLoop(cycle, startingCycle)")
